@@ -10,6 +10,25 @@ CLAIMS = {
         'note': 'Python slice/dict/set semantics trusted; only the in-memory blocks and contexts named in the anchors are analysed.',
         'technique': 'path enumeration + affine constraint normal forms (static)',
     },
+    'C04': {
+        'text': 'Decides on every path of the ten data-access execute() methods: fc->table map equals the spec data model, reads '
+                'return getValues(fc, validated address, validated count), writes store the request values at the validated '
+                'address, FC23 writes before it reads, responses echo the spec fields, the FC22 stored value has the spec truth '
+                'table, and validate/get/set of the slave context share one address transform. Necessary structural conditions; '
+                'request histories and "latest write wins" are not decided.',
+        'note': 'In-memory ModbusSlaveContext only; struct and Python list semantics trusted; C18 decides block arithmetic.',
+        'technique': 'path enumeration with value propagation + bitwise truth table + sibling comparison (static)',
+    },
+    'C05': {
+        'text': 'Decides for all paths of the data-access execute() methods that an accepted request satisfies exactly the spec '
+                'quantity intervals and byte-count relations, that guard / address failures answer 03 / 02 with the request '
+                'function code, that every setValues is dominated by every guard and by validate(fc, same address, number of '
+                'values written), that no path writes and then answers an exception, that unknown codes yield exception 01 and '
+                'that every front-end maps a datastore exception to 04. Boundary sweeps over concrete stores are not run.',
+        'note': 'Attribute<->wire binding of guarded fields is decided by C01/C02; block range arithmetic by C18. Three genuine '
+                'defects (FC5 value word, FC15 quantity) are listed in known_findings.jsonl.',
+        'technique': 'guard/dominance analysis over enumerated paths, interval + affine normal forms (static)',
+    },
 }
 
 _PENDING = 'check not built yet in this revision (planned, see DESIGN.md §2)'
